@@ -722,7 +722,13 @@ impl Report {
                                     n
                                 }));
                                 match r {
-                                    Ok(n) => local.push((w, n, ctx.fails.clone(), false)),
+                                    Ok(n) => {
+                                        // a skipped transition is tallied like a skipped case of the other engine
+                                        if let Some(r) = ctx.skip.take() {
+                                            *ctx.skipped.entry(r).or_insert(0) += 1;
+                                        }
+                                        local.push((w, n, ctx.fails.clone(), false))
+                                    }
                                     Err(p) => {
                                         if p.downcast_ref::<DomainExit>().is_some() {
                                             local.push((w, None, vec![], true));
